@@ -8,8 +8,12 @@
 #include <stdlib.h>
 #include "vfile.h"
 #include "vprintf.h"
-#define CF_R 3
-#define CF_L 3
+#ifndef CF_R
+#define CF_R 2
+#endif
+#ifndef CF_L
+#define CF_L 2
+#endif
 #include "cfbuild.h"
 
 static int exit_code = -1;
